@@ -19,7 +19,7 @@ type GenOpts struct {
 	NoDram     bool
 	MaxOps     int
 	NoRob      bool
-	OnlyCaches int // -1: any
+	OnlyCaches int  // -1: any
 	Stub       bool // force the adversarial stub as lower memory
 	NoStub     bool
 }
